@@ -85,7 +85,9 @@ type Contract struct {
 	Uses     []string // axiom groups this function's proofs may use
 	TaggedOnly []string // properties for which only explicitly tagged clauses of this function count
 	NoNil    bool     // rte.nil obligations are not generated (stated assumption)
+	DynPure  bool     // stated assumption: function values called by this function do not modify library state
 	Sweep    bool     // zero-annotation C07 sweep: only run-time-error (and invariant) obligations; callee preconditions assumed
+	NoRteKinds []string // run-time-error kinds not claimed for this function
 	NoRte    bool     // no run-time-error obligations at all for this function (only its contract clauses are claimed)
 	Lemma    bool     // ghost client (lemma) function
 }
@@ -235,7 +237,16 @@ func (sp *Spec) loadFile(path string, pkg string) error {
 		case "nonil":
 			cur.NoNil = true
 		case "norte":
-			cur.NoRte = true
+			if rest == "" {
+				cur.NoRte = true
+			} else {
+				// norte assert nil ...: only these kinds of run-time-error obligations are switched off
+				for _, k := range strings.Fields(rest) {
+					cur.NoRteKinds = append(cur.NoRteKinds, "rte."+k)
+				}
+			}
+		case "dynpure":
+			cur.DynPure = true
 		case "sweep":
 			cur.Sweep = true
 			cur.NoNil = true
